@@ -26,6 +26,16 @@ theorem C08_required_omission_fails (ps : List Param) (values : List (String × 
     ∃ e, encodeMessage none ps (.dict values) trig true = .error e :=
   encodeMessage_missing ps values trig h
 
+/-- **Open finding `condensed-bit-mask-static-length`, exhibited in the model.** For a condensed BIT-MASK the
+    reported static length counts the one-bits of the mask while the encoder emplaces BIT-LENGTH bits: a 16-bit
+    `A_UINT32` with condensed mask `0x00ff` at bit position 1 reports 16 bits but encodes (and decodes) 3 bytes.
+    (The same witness runs against the real code in the corpus of `harness/props/c08.py`.) -/
+theorem C08_condensed_counterexample :
+    let p : Param := .mk "x" none (some 1) (.value (.simple (.std .uint32 none true 16 (some 0x00ff) true) .uint32 .identical) none)
+    (Dop.struct none [p]).staticBitLen = some 16 ∧
+    (encodeMessage none [p] (.dict [("x", .atom (.int 0x55))]) none true).toOption = some ([0, 0, 0xaa], 0) := by
+  decide +kernel
+
 /-! non-vacuity -/
 example : (Dop.struct none (exObjs.map fun ov => ov.1.toParam)).staticBitLen = some 56 := by decide
 example : ∃ p ∈ exObjs.map (fun ov => ov.1.toParam), (∃ d, p.kind = .value d none) ∧ lookup p.name [("a", PVal.atom (.int 1))] = none :=
